@@ -52,6 +52,11 @@ type Cmd struct {
 	Aggs  []harness.AggSpec `json:"aggs,omitempty"`
 	ID    string            `json:"id,omitempty"`
 	Async bool              `json:"async,omitempty"`
+	// burst: Docs and Docs2 are sent as two concurrent bulks; the first goroutine to reach
+	// DelayPoint sleeps DelayMs there (schedule perturbation, not a crash)
+	Docs2      []model.Doc `json:"docs2,omitempty"`
+	DelayPoint string      `json:"delay_point,omitempty"`
+	DelayMs    int         `json:"delay_ms,omitempty"`
 }
 
 type Resp struct {
@@ -120,7 +125,22 @@ var (
 	traced  []string
 )
 
+var (
+	delayMu    sync.Mutex
+	delayPoint string
+	delayFor   time.Duration
+)
+
 func hook(name string, args ...string) {
+	delayMu.Lock()
+	d := time.Duration(0)
+	if delayPoint != "" && delayPoint == name {
+		d, delayPoint = delayFor, ""
+	}
+	delayMu.Unlock()
+	if d > 0 {
+		time.Sleep(d)
+	}
 	if trace.Load() {
 		traceMu.Lock()
 		s := name
@@ -232,6 +252,26 @@ func main() {
 			}
 			if c.Wait {
 				st.WaitIdle()
+			}
+			reply(Resp{OK: true})
+		case "burst":
+			delayMu.Lock()
+			delayPoint, delayFor = c.DelayPoint, time.Duration(c.DelayMs)*time.Millisecond
+			delayMu.Unlock()
+			errs := make([]error, 2)
+			var wg sync.WaitGroup
+			wg.Add(2)
+			go func() { defer wg.Done(); errs[0] = st.Bulk(c.Docs) }()
+			time.Sleep(2 * time.Millisecond) // let the first bulk reach the write path first
+			go func() { defer wg.Done(); errs[1] = st.Bulk(c.Docs2) }()
+			wg.Wait()
+			delayMu.Lock()
+			delayPoint = ""
+			delayMu.Unlock()
+			st.WaitIdle()
+			if errs[0] != nil || errs[1] != nil {
+				reply(Resp{Err: fmt.Sprintf("%v / %v", errs[0], errs[1])})
+				continue
 			}
 			reply(Resp{OK: true})
 		case "waitidle":
